@@ -100,6 +100,8 @@ pub struct LifeCfg {
     pub precommits: bool,
     /// horizon in epochs (overrides `periods` when set)
     pub horizon: Option<i64>,
+    /// 64 GiB sectors (FIL-scale pledges and penalties) instead of 2 KiB ones
+    pub big: bool,
 }
 
 pub struct W {
@@ -638,7 +640,7 @@ impl Scenario for Life {
     }
 
     fn worker(&self, store: &Store) -> W {
-        let vm = Vm::genesis(store.clone(), small_policy());
+        let vm = Vm::genesis(store.clone(), if self.cfg.big { big_policy() } else { small_policy() });
         let cast = setup_with(&vm, true, self.cfg.poor.clone());
         let mut deposits = BTreeMap::new();
         deposits.insert(cast.m, cast.dep_m.clone());
